@@ -57,6 +57,14 @@ Section Spec.
     forall t defs, reg_find reg t = Some (CObj defs) -> closed_list defs.
 End Spec.
 
+(* the cap on the declared length of each length-prefixed base type *)
+Definition cap_of (k : bk) : option Z :=
+  match k with
+  | KStr | KBytes => Some MAXB
+  | KSeq | KMap | KSet => Some MAXA
+  | _ => None
+  end.
+
 (* ---------- Part 2: the decoder over a stream that logs its reads *)
 Record cst := mkcst { c_rem : list byte; c_nval : Z; c_log : list (Z * Z) }.
    (* c_log: one entry per stream.read call, most recent first: (size argument, bytes returned) *)
